@@ -12,7 +12,9 @@
 (*                "close"         the device closes itself (e.g. EOF)      *)
 (*                "arrive_close"  a message arrives, then the device closes*)
 (* Kinds: "io" (BaseIOPort device double), "in" (BaseInput double),        *)
-(*        "out" (BaseOutput double), "echo" (EchoPort),                    *)
+(*        "out" (BaseOutput double), "outs" (an output whose class         *)
+(*        overrides the public send() instead of _send(), as mido's own    *)
+(*        rtmidi backend does), "echo" (EchoPort),                         *)
 (*        "ioport" (IOPort wrapper around an input and an output double;   *)
 (*        its script has no self-closing items).                           *)
 (***************************************************************************)
@@ -28,7 +30,7 @@ R(k, v) == [k |-> k, v |-> v]
 ScriptItems == IF Kind \in {"io", "in"} THEN {"nothing", "arrive", "close", "arrive_close"}
                ELSE IF Kind = "ioport" THEN {"nothing", "arrive"}
                ELSE {}
-HasInput  == Kind # "out"
+HasInput  == Kind \notin {"out", "outs"}
 HasOutput == Kind # "in"
 
 \* what the device(s) see when the port is closed (first time only)
